@@ -299,7 +299,7 @@ def make_ticks(ppq, mpq):
         from partitura.utils import music as M
 
         require(0 <= tick <= 2 ** 24)
-        require(0 <= ms <= 10 ** 7)
+        require(-10 ** 6 <= ms <= 10 ** 7)
         # ticks -> seconds is the exact quotient
         s = must_not_raise(M.midi_ticks_to_seconds, tick, mpq, ppq, _what="midi_ticks_to_seconds")
         err = s * (10 ** 6 * ppq) - mpq * tick
@@ -381,7 +381,7 @@ HARNESSES = [
       bounds="actual/normal 1..12 (enumerated by realisation), 5 note types each"),
     H("clef", make_clef, _one, budget={"quick": 30, "thorough": 100}, bounds="7 clef signs"),
     H("ticks", make_ticks, _pm, models=["symnp:partitura.utils.music"], budget={"quick": 90, "thorough": 300},
-      bounds="ticks <= 2^24, times n/1000 s with n <= 10^7, listed ppq/mpq pairs; reals (rounding ties and IEEE "
+      bounds="ticks <= 2^24, times n/1000 s with -10^6 <= n <= 10^7, listed ppq/mpq pairs; reals (rounding ties and IEEE "
              "rounding are decided by engine B in C06/C08)"),
     H("ticks_array", make_ticks_array, _pm, budget={"quick": 20, "thorough": 60},
       vectors=[{"a": 0, "b": 1}, {"a": 1500, "b": 333}, {"a": 999999, "b": 12345}],
